@@ -33,6 +33,10 @@ pub struct CallPlan {
     /// streaming responses: after this many items the caller asks for `Streaming::trailers()`
     /// instead of the next message (which drains the rest of the stream)
     pub early_trailers_after: Option<usize>,
+    /// bidirectional calls: a ping-pong conversation — the caller sends its k-th request only
+    /// after it has seen k responses (as many as the handler will produce); the handler (read mode
+    /// 2) answers after each request it reads
+    pub ping_pong: bool,
 }
 
 #[derive(Debug, Default)]
@@ -114,7 +118,7 @@ fn mk_request<T>(plan: &CallPlan, body: T) -> Request<T> {
     r
 }
 
-async fn drain<M: SimMsg>(sim: &Sim, mut s: Streaming<M>, extra: u32, early: Option<usize>, obs: &mut Observed) {
+async fn drain<M: SimMsg>(sim: &Sim, mut s: Streaming<M>, extra: u32, early: Option<usize>, gate: Option<crate::seams::Gate>, obs: &mut Observed) {
     let mut terminal = false;
     let mut n_after = 0;
     loop {
@@ -137,6 +141,9 @@ async fn drain<M: SimMsg>(sim: &Sim, mut s: Streaming<M>, extra: u32, early: Opt
                     let c = m.canon();
                     sim.ev(|| format!("client: item {}B", c.len()));
                     obs.items.push(c);
+                    if let Some(g) = &gate {
+                        g.bump();
+                    }
                 }
             }
             Ok(None) => {
@@ -176,6 +183,10 @@ pub async fn perform<M: SimMsg, C: ClientOps<M>>(sim: &Sim, client: &mut C, plan
     let mut obs = Observed::default();
     let first = M::from_payload(plan.tag, plan.req_msgs.first().map(|v| &v[..]).unwrap_or(&[]));
     let all = |_: ()| plan.req_msgs.iter().map(|b| M::from_payload(plan.tag, b)).collect::<Vec<M>>();
+    let gate = if plan.ping_pong && plan.shape == 3 { Some(crate::seams::Gate::new(plan.script.msgs.len())) } else { None };
+    if gate.is_some() {
+        sim.probe("ping-pong-conversation");
+    }
     sim.ev(|| format!("client: call {} {} req_msgs={:?} md={}", plan.id, SHAPES[plan.shape], plan.req_msgs.iter().map(|m| m.len()).collect::<Vec<_>>(), gen::md_summary(&plan.req_md)));
     match plan.shape {
         0 => match client.unary(mk_request(plan, first)).await {
@@ -195,14 +206,14 @@ pub async fn perform<M: SimMsg, C: ClientOps<M>>(sim: &Sim, client: &mut C, plan
         2 => match client.server_stream(mk_request(plan, first)).await {
             Ok(r) => {
                 obs.head_md = Some(r.metadata().clone());
-                drain(sim, r.into_inner(), plan.extra_polls, plan.early_trailers_after, &mut obs).await;
+                drain(sim, r.into_inner(), plan.extra_polls, plan.early_trailers_after, None, &mut obs).await;
             }
             Err(e) => obs.call_err = Some(e),
         },
-        _ => match client.bidi(mk_request(plan, MsgSource::new(sim, all(()), plan.req_src_pending))).await {
+        _ => match client.bidi(mk_request(plan, MsgSource::new(sim, all(()), plan.req_src_pending).with_gate(gate.clone()))).await {
             Ok(r) => {
                 obs.head_md = Some(r.metadata().clone());
-                drain(sim, r.into_inner(), plan.extra_polls, plan.early_trailers_after, &mut obs).await;
+                drain(sim, r.into_inner(), plan.extra_polls, plan.early_trailers_after, gate.clone(), &mut obs).await;
             }
             Err(e) => obs.call_err = Some(e),
         },
@@ -573,9 +584,13 @@ pub fn gen_plan(sim: &Sim, id: u64, shape: usize, max_msg: usize) -> CallPlan {
         req_src_pending: sim.pick(&[0u64, 0, 20, 70]),
         extra_polls: sim.range(0, 2) as u32,
         early_trailers_after: None,
+        ping_pong: false,
     };
     if shape >= 2 && !plan.script.fail_at_call && sim.chance(1, 6) {
         plan.early_trailers_after = Some(sim.range(0, plan.script.msgs.len() as u64) as usize);
+    }
+    if shape == 3 && plan.script.read_mode == 2 && !plan.script.fail_at_call && plan.early_trailers_after.is_none() && sim.chance(1, 2) {
+        plan.ping_pong = true;
     }
     plan.script.ok_trailing_md = ok_trailing_md;
     plan
